@@ -117,6 +117,24 @@ def main():
                         chk.violation("uniform profiles, levels=%s: the numerical %s in slot %d (node %d) is closest to the closed form of slot %d (node %d), not of its own slot"
                                       % (lv, name, k, lv[k], j, lv[j]), {"kind": "numeric_vs_analytic_slot", "config": c, "slot": k}, klass={"check": "numeric_vs_analytic_slot"})
                         break
+    # the mean component: for height-independent profiles the trapezoidal rule is exact, so the horizontal mean of the
+    # numerical concentration at every requested level (including the roughness node and the top node, in any order)
+    # equals the closed form's linear mean profile to rounding - no accuracy claim involved
+    for fp in (False, True):
+        for lv in ([0, 5, 15], [15, 0], [3, 0, 9], [0], [7, 15, 1, 0]):
+            c = {"nx": 12, "ny": 10, "ax": 2, "ay": 3, "halo": 0, "mx": 12, "my": 10, "xm": 8 if fp else 0, "ym": 9 if fp else 0, "fp": fp, "an": False, "nz": 16, "lv": lv}
+            kw = rs.solver_args(c, "const_aniso", "double")
+            q = rs.source(c, "smooth", rng)
+            _, pn, fn = rs.solve3(q, kw, srf_bg_conc=0.4)
+            _, pa, fa = rs.solve3(q, kw, srf_bg_conc=0.4, analytic=True)
+            pn, pa = np.asarray(pn).reshape(len(lv), -1), np.asarray(pa).reshape(len(lv), -1)
+            for k in range(len(lv)):
+                nslot += 1
+                mn, ma = float(pn[k].mean()), float(pa[k].mean())
+                if abs(mn - ma) > 1e-10 * max(abs(ma), 1e-3):
+                    chk.violation("uniform profiles, levels=%s: the mean concentration of the numerical mode at node %d is %.12g, the closed form's linear mean profile gives %.12g"
+                                  % (lv, lv[k], mn, ma), {"kind": "numeric_vs_analytic_mean", "config": c, "slot": k}, klass={"check": "numeric_vs_analytic_mean", "node0": lv[k] == 0})
+                    break
     chk.extra["numeric_vs_analytic_slots"] = nslot
     chk.traces += len(r.emitted)
     chk.extra["probe_points"] = len(r.emitted)
